@@ -46,7 +46,7 @@ def syscall_summary_hextb(idx, k):
 
 
 def run(rep, tier):
-    rep.trusted = ['clang 14 AST', 'verdicts of C02 (hexsim == ISA per step) and C03 (RTL == ISA per clock) are imported, not re-derived',
+    rep.trusted = ['clang 14 AST', 'the rules of C02 (hexsim == ISA per step) and C03 (RTL == ISA per clock) are run as part of this check',
                    'term algebra']
     rep.assumptions = ['programs never read memory they have not written (property quantifier): hextb also copies the symbol tables '
                        'behind the image into memory, hexsim leaves that memory zero',
@@ -55,9 +55,12 @@ def run(rep, tier):
     sim = cast.load('hexsim.cpp')
     rep.analysed(unit='hextb.cpp')
     rep.analysed(unit='hexsim.cpp')
-    rep.rule('R1', 'composition: RTL core == ISA per clock (C03) and hexsim == ISA per step (C02) are separate checks whose verdicts this '
-             'property relies on', floor=1)
-    rep.add('R1', 'imports', True, 'hexsa/rules/c02.py, c03.py', 'C02 and C03 are registered checks; C06 decides the testbench glue', nontrivial=False)
+    rep.rule('R1', 'composition: the RTL core equals the ISA per clock (all rules of C03) and hexsim equals the ISA per step (all rules of '
+             'C02), decided on the current tree as part of this check; C06 itself adds the testbench glue', floor=3000)
+    from .. import report as _report
+    from . import c02, c03
+    c03.run(_report.Import(rep, 'R1', 'C03'), tier)
+    c02.run(_report.Import(rep, 'R1', 'C02'), tier)
     # R2: syscall shim
     rep.rule('R2', 'the testbench system-call shim (handleSyscall) and hexsim::Processor::syscall have identical effect summaries for EXIT, '
              'WRITE and READ under hexsim\'s configuration: same argument slots relative to mem[1], same 8-bit truncation, same sequence of '
@@ -107,6 +110,22 @@ def run(rep, tier):
     mc = [c for c in cast.calls_in(ld.body) if callee_of(c)[1] == 'memcpy']
     ok = False
     detail = '%d memcpy call(s)' % len(mc)
+    if not mc:
+        # another loader shape: the file is read straight into the DUT memory (possibly through a reference alias)
+        aliases = {d['id'] for d in walk(ld.body) if d['kind'] == 'VarDecl' and children(d) and any(y.get('name') == 'memory_q' for y in walk(children(d)[-1]))}
+
+        def is_mem(e):
+            return any(y.get('name') == 'memory_q' for y in walk(e)) or any(
+                y['kind'] == 'DeclRefExpr' and (y.get('referencedDecl') or {}).get('id') in aliases for y in walk(e))
+        direct = [c for c in cast.calls_in(ld.body) if callee_of(c)[1] == 'read' and is_mem(cast.call_args(c)[0])]
+        zeroed = [c for c in cast.calls_in(ld.body) if callee_of(c)[1] in ('memset', 'fill', 'fill_n') and any(is_mem(a_) for a_ in cast.call_args(c))]
+        if direct and not zeroed:
+            rep.add('R3', 'load:image-at-word-0', False, pos(direct[0]) + ' load (hextb.cpp)',
+                    'the file is read straight into the DUT memory, which holds randomised power-on values: the bytes of the last image word '
+                    'that the file does not cover (its length is not a multiple of 4: symbol names follow the image) are never written')
+        else:
+            rep.undecided('R3', 'load:image-at-word-0', 'the loader neither copies a staging buffer nor reads into the DUT memory in a recognised form', pos(ld.node))
+        ok = None
     if len(mc) == 1:
         a = cast.call_args(mc[0])
         dst_ok = any(callee_of(x)[1] == 'data' for x in cast.calls_in(a[0])) and any(y.get('name') == 'memory_q' for y in walk(a[0])) and \
@@ -124,7 +143,8 @@ def run(rep, tier):
         ok = dst_ok and src_plain and len(reads) == 2 and not seeks_after_hdr
         detail = 'destination is memory_q.data() without offset: %s; source buffer without offset: %s; reads: %d; seek after header: %s' % (
             dst_ok, src_plain, len(reads), seeks_after_hdr)
-    rep.add('R3', 'load:image-at-word-0', ok, pos(ld.node) + ' load (hextb.cpp)', detail)
+    if ok is not None:
+        rep.add('R3', 'load:image-at-word-0', ok, pos(ld.node) + ' load (hextb.cpp)', detail)
     # the whole image is copied: the length handed to memcpy is the number of bytes read, not clipped below the memory size
     if len(mc) == 1:
         inits = {d['id']: children(d)[-1] for d in walk(ld.body) if d['kind'] == 'VarDecl' and children(d)}
